@@ -237,11 +237,9 @@ theorem lowerOnce_succ {low : T → Option T} : ∀ (f : Nat) (t u : T),
   | succ f ih =>
     intro t u h
     rw [lowerOnce] at h ⊢
-    cases hm : mapOpt (lowerOnce low f) (match low t with | some o => o | none => t).kids with
-    | none => cases h
-    | some ks =>
-      rw [mapOpt_mono _ (lowerOnce low (f+1)) _ ks (fun a _ b hb => ih a b hb) hm]
-      exact h
+    obtain ⟨ks, hm, rfl⟩ := Option.map_eq_some_iff.mp h
+    rw [mapOpt_mono _ (lowerOnce low (f+1)) _ ks (fun a _ b hb => ih a b hb) hm]
+    rfl
 
 theorem lowerOnce_mono {low : T → Option T} {f f' : Nat} {t u : T} (h : lowerOnce low f t = some u)
     (hle : f ≤ f') : lowerOnce low f' t = some u := by
@@ -264,6 +262,13 @@ theorem kids_fuel {low : T → Option T} : ∀ (ks : List T), (∀ k ∈ ks, ∃
     rw [lowerOnce_mono hu (Nat.le_max_left f F),
       mapOpt_mono _ (lowerOnce low (max f F)) ks l (fun a _ b hb => lowerOnce_mono hb (Nat.le_max_right f F)) hl]
 
+theorem outOf_cases (low : T → Option T) (t : T) :
+    (low t = none ∧ outOf low t = t) ∨ (∃ o, low t = some o ∧ outOf low t = o) := by
+  unfold outOf
+  cases hl : low t with
+  | none => exact Or.inl ⟨rfl, rfl⟩
+  | some o => exact Or.inr ⟨o, rfl, rfl⟩
+
 theorem lowerOnce_total {low : T → Option T} (t : T) (h : Acc (Desc low) t) :
     (∃ f u, lowerOnce low f t = some u) ∧ ∀ k ∈ t.kids, ∃ f u, lowerOnce low f k = some u := by
   induction h with
@@ -271,13 +276,12 @@ theorem lowerOnce_total {low : T → Option T} (t : T) (h : Acc (Desc low) t) :
     have hkids : ∀ k ∈ t.kids, ∃ f u, lowerOnce low f k = some u :=
       fun k hk => (ih k (Or.inr hk)).1
     refine ⟨?_, hkids⟩
-    cases hl : low t with
-    | none =>
-      obtain ⟨F, l, hF⟩ := kids_fuel t.kids hkids
-      exact ⟨F + 1, .node t.cls l, by rw [lowerOnce]; simp only [hl, hF]⟩
-    | some o =>
-      obtain ⟨F, l, hF⟩ := kids_fuel o.kids (ih o (Or.inl (Rew.root hl))).2
-      exact ⟨F + 1, .node o.cls l, by rw [lowerOnce]; simp only [hl, hF]⟩
+    have hout : ∀ k ∈ (outOf low t).kids, ∃ f u, lowerOnce low f k = some u := by
+      rcases outOf_cases low t with ⟨_, ho⟩ | ⟨o, hl, ho⟩
+      · rw [ho]; exact hkids
+      · rw [ho]; exact (ih o (Or.inl (Rew.root hl))).2
+    obtain ⟨F, l, hF⟩ := kids_fuel (outOf low t).kids hout
+    exact ⟨F + 1, .node (outOf low t).cls l, by rw [lowerOnce, hF]; rfl⟩
 
 /-! ### what `lower_once` computes is reachable by `_lower` applications -/
 
@@ -331,20 +335,17 @@ theorem lowerOnce_rewStar {low : T → Option T} : ∀ (f : Nat) (t u : T),
   | succ f ih =>
     intro t u h
     rw [lowerOnce] at h
-    have hout : RewStar low t (match low t with | some o => o | none => t) := by
-      cases hl : low t with
-      | none => exact RewStar.refl _
-      | some o => exact RewStar.head (Rew.root hl) (RewStar.refl _)
-    generalize (match low t with | some o => o | none => t) = out at h hout
-    cases hm : mapOpt (lowerOnce low f) out.kids with
-    | none => cases h
-    | some ks =>
-      cases h
-      refine hout.trans ?_
-      cases out with
-      | node c oks =>
-        have := RewStar.kids (low := low) (lowerOnce low f) c oks ks [] hm (fun k _ v hv => ih k v hv)
-        simpa [T.cls, T.kids] using this
+    obtain ⟨ks, hm, rfl⟩ := Option.map_eq_some_iff.mp h
+    have hout : RewStar low t (outOf low t) := by
+      rcases outOf_cases low t with ⟨_, ho⟩ | ⟨o, hl, ho⟩
+      · rw [ho]; exact RewStar.refl _
+      · rw [ho]; exact RewStar.head (Rew.root hl) (RewStar.refl _)
+    refine hout.trans ?_
+    generalize outOf low t = out at hm
+    cases out with
+    | node c oks =>
+      have := RewStar.kids (low := low) (lowerOnce low f) c oks ks [] hm (fun k _ v hv => ih k v hv)
+      simpa [T.cls, T.kids] using this
 
 theorem RewStar.sn {low : T → Option T} {a b : T} (h : RewStar low a b) : SN low a → SN low b := by
   induction h with
